@@ -71,7 +71,8 @@ Definition hooks_complete (tb : table) : bool :=
 Definition ext_codes_match : bool :=
   N.eqb ext_complex hook_complex && N.eqb ext_long hook_long && N.eqb ext_date hook_date
   && N.eqb ext_datetime hook_datetime
-  && negb (N.eqb ext_complex ext_long) && negb (N.eqb ext_complex ext_date) && negb (N.eqb ext_long ext_date).
+  && negb (N.eqb ext_complex ext_long) && negb (N.eqb ext_complex ext_date) && negb (N.eqb ext_long ext_date)
+  && negb (N.eqb ext_datetime ext_complex) && negb (N.eqb ext_datetime ext_long) && negb (N.eqb ext_datetime ext_date).
 
 (* ------------------------------------------------------------------ recreate_classes *)
 (* the dict serpent writes for a float NaN: {'__class__':'float','value':'nan'} *)
@@ -139,7 +140,7 @@ Fixpoint sp_map (v : val) : val :=
   | VSet l | VFrozenSet l => match l with [] => VTuple [] | _ => VSet (map sp_map l) end
   | VDict d => VDict (map (fun kv => (sp_map (fst kv), sp_map (snd kv))) d)
   | VUuid s | VDecimal s => VStr s
-  | VDate _ iso => VStr iso
+  | VDate _ iso | VDateTime _ iso => VStr iso
   | _ => v
   end.
 Fixpoint sp_st (v : val) : st :=
@@ -160,12 +161,12 @@ Fixpoint sp_st (v : val) : st :=
 Definition ma_top (conv : bool) (v : val) : val :=
   if conv then match v with VUuid s => VStr s | _ => v end else v.
 Definition ma_top_st (conv : bool) (v : val) : st :=
-  if conv then match v with VDecimal _ | VDate _ _ => SRefused | _ => SOk end else SOk.
+  if conv then match v with VDecimal _ | VDate _ _ | VDateTime _ _ => SRefused | _ => SOk end else SOk.
 Fixpoint ma_st (v : val) : st :=
   match v with
   | VList l | VTuple l | VSet l | VFrozenSet l => st_all (map ma_st l)
   | VDict d => st_all (map (fun kv => st_and (ma_st (fst kv)) (ma_st (snd kv))) d)
-  | VUuid _ | VDecimal _ | VDate _ _ => SRefused
+  | VUuid _ | VDecimal _ | VDate _ _ | VDateTime _ _ => SRefused
   | VExt _ _ => SOutside
   | _ => SOk
   end.
@@ -183,7 +184,7 @@ Fixpoint js_map (v : val) : val :=
   | VList l | VTuple l | VSet l => VList (map js_map l)
   | VDict d => VDict (map (fun kv => (fst kv, js_map (snd kv))) d)
   | VUuid s | VDecimal s => VStr s
-  | VDate _ iso => VStr iso
+  | VDate _ iso | VDateTime _ iso => VStr iso
   | _ => v
   end.
 Fixpoint js_st (dflt : bool) (v : val) : st :=
@@ -193,7 +194,7 @@ Fixpoint js_st (dflt : bool) (v : val) : st :=
   | VList l | VTuple l => st_all (map (js_st dflt) l)
   | VSet l => st_and (guard dflt) (st_all (map (js_st dflt) l))
   | VDict d => st_all (map (fun kv => st_and (js_key_st (fst kv)) (js_st dflt (snd kv))) d)
-  | VUuid _ | VDecimal _ | VDate _ _ => guard dflt
+  | VUuid _ | VDecimal _ | VDate _ _ | VDateTime _ _ => guard dflt
   | VExt _ _ => SOutside
   end.
 
@@ -207,6 +208,7 @@ Fixpoint mp_map (v : val) : val :=
   | VDict d => VDict (map (fun kv => (mp_map (fst kv), mp_map (snd kv))) d)
   | VComplex _ _ => VExt ext_complex v
   | VDate _ _ => VExt ext_date v
+  | VDateTime _ _ => VExt ext_datetime v
   | VUuid s | VDecimal s => VStr s
   | _ => v
   end.
@@ -218,7 +220,7 @@ Fixpoint mp_st (dflt : bool) (v : val) : st :=
   | VFrozenSet _ => SRefused
   | VDict d => st_all (map (fun kv => st_and (st_and (mp_st dflt (fst kv)) (guard (is_str_or_bytes (mp_map (fst kv)))))
                                             (mp_st dflt (snd kv))) d)
-  | VComplex _ _ | VDate _ _ | VUuid _ | VDecimal _ => guard dflt
+  | VComplex _ _ | VDate _ _ | VDateTime _ _ | VUuid _ | VDecimal _ => guard dflt
   | VExt _ _ => SOutside
   | _ => SOk
   end.
@@ -228,6 +230,7 @@ Definition ext_decodes (code : N) (p : val) : bool :=
   | VComplex _ _ => N.eqb code hook_complex
   | VInt _ => N.eqb code hook_long
   | VDate _ _ => N.eqb code hook_date
+  | VDateTime _ _ => N.eqb code hook_datetime
   | _ => false
   end.
 (* the unpacker's hooks: ext_hook on every ExtType; object_hook on every dict (class dicts are
@@ -333,7 +336,7 @@ Fixpoint js_stable (v : val) : bool :=
   end.
 Fixpoint mp_stable (v : val) : bool :=
   match v with
-  | VNone | VBool _ | VInt _ | VFloat _ | VStr _ | VBytes _ | VComplex _ _ | VDate _ _ => true
+  | VNone | VBool _ | VInt _ | VFloat _ | VStr _ | VBytes _ | VComplex _ _ | VDate _ _ | VDateTime _ _ => true
   | VList l => forallb mp_stable l
   | VDict d => negb (has_class d) && forallb (fun kv => is_str_or_bytes (fst kv) && mp_stable (snd kv)) d
   | _ => false
